@@ -96,6 +96,25 @@ theorem giveBackAll_some (P : Params) (a : Algo) (m : Meta) (fs : List (Peer × 
   | nil => exact ⟨m, rfl⟩
   | cons f fs ih => rw [giveBackAll_cons]; exact ih _
 
+theorem applyAll_none (P : Params) (a : Algo) (acts : List Action) :
+    applyAll P a none acts = none := by
+  induction acts with
+  | nil => rfl
+  | cons f fs ih => simpa [applyAll, List.foldl_cons] using ih
+
+theorem applyAll_cons (P : Params) (a : Algo) (md : Option Meta) (act : Action) (acts : List Action) :
+    applyAll P a md (act :: acts) = applyAll P a (md.map (fun m => act.apply P a m)) acts := rfl
+
+theorem applyAll_append (P : Params) (a : Algo) (md : Option Meta) (fs gs : List Action) :
+    applyAll P a md (fs ++ gs) = applyAll P a (applyAll P a md fs) gs := by
+  simp [applyAll, List.foldl_append]
+
+theorem applyAll_some (P : Params) (a : Algo) (m : Meta) (acts : List Action) :
+    ∃ m', applyAll P a (some m) acts = some m' := by
+  induction acts generalizing m with
+  | nil => exact ⟨m, rfl⟩
+  | cons f fs ih => rw [applyAll_cons]; exact ih _
+
 /-- An invariant of `giveBack` steps is an invariant of any sequence of reports. -/
 theorem giveBackAll_induct (a : Algo) (Q : Meta → Prop) (fs : List (Peer × Nat))
     (R : Peer × Nat → Prop) (hR : ∀ f ∈ fs, R f)
@@ -226,26 +245,44 @@ theorem filter_map_set_new {α β} (p : α → Bool) (f : α → β) (ts : List 
         exact ((ih i hi).cons (f x)).trans (List.Perm.swap ..)
       · exact ih i hi
 
+theorem chained_append {P : Params} {a : Algo} {md0 : Option Meta} {l : List (Action × Meta)}
+    {act : Action} {m : Meta} :
+    Chained P a md0 (l ++ [(act, m)]) ↔
+      Chained P a md0 l ∧ applyAll P a md0 (l.map (·.1)) = some m := by
+  induction l generalizing md0 with
+  | nil => simp [Chained, applyAll]
+  | cons x xs ih =>
+    obtain ⟨b, n⟩ := x
+    simp only [List.cons_append, Chained, List.map_cons, applyAll_cons]
+    constructor
+    · rintro ⟨h1, h2⟩
+      have := ih.mp h2
+      exact ⟨⟨h1, this.1⟩, by rw [h1]; exact this.2⟩
+    · rintro ⟨⟨h1, h2⟩, h3⟩
+      refine ⟨h1, ih.mpr ⟨h2, ?_⟩⟩
+      rw [h1] at h3; exact h3
+
 /-- `ReportFailure` of the repaired code: the whole read-modify-write under the write lock. -/
 abbrev AP : List Op := [.lock, .read, .write, .unlock]
 
 theorem rfProgram_fixed : rfProgram fixed.atomicRF = AP := rfl
 
-def key (t : Thread) : Peer × Nat := (t.peer, t.give)
+def key (t : Thread) : Action := t.act
 
 /-- Invariant of every reachable state of the atomic program. -/
-structure SInv (a : Algo) (md0 : Option Meta) (fs : List (Peer × Nat)) (st : SState) : Prop where
+structure SInv (a : Algo) (md0 : Option Meta) (fs : List Action) (st : SState) : Prop where
   keys : st.2.map key = fs
   readers : st.1.readers = 0
   holder : ∀ (i : Nat) (t : Thread), st.2[i]? = some t → ((1 ≤ t.pc ∧ t.pc ≤ 3) ↔ st.1.writer = some i)
   loc : ∀ (i : Nat) (t : Thread), st.2[i]? = some t → t.pc = 2 → t.loc = st.1.md
-  lin : st.1.md = giveBackAll fixed a md0 st.1.order
-  sub : ∀ k ∈ st.1.order, k ∈ fs
-  perm : md0.isSome → st.1.order.Perm ((st.2.filter (fun t => decide (3 ≤ t.pc))).map key)
+  lin : st.1.md = applyAll fixed a md0 (st.1.order.map (·.1))
+  chain : Chained fixed a md0 st.1.order
+  sub : ∀ k ∈ st.1.order.map (·.1), k ∈ fs
+  perm : md0.isSome → (st.1.order.map (·.1)).Perm ((st.2.filter (fun t => decide (3 ≤ t.pc))).map key)
 
-theorem sinv_init (a : Algo) (md0 : Option Meta) (fs : List (Peer × Nat)) :
+theorem sinv_init (a : Algo) (md0 : Option Meta) (fs : List Action) :
     SInv a md0 fs ({ md := md0 }, initThreads fs) := by
-  refine ⟨?_, rfl, ?_, ?_, rfl, by simp, ?_⟩
+  refine ⟨?_, rfl, ?_, ?_, rfl, trivial, by simp, ?_⟩
   · simp [initThreads, key, Function.comp_def]
   · intro i t ht
     simp only [initThreads, List.getElem?_map, Option.map_eq_some_iff] at ht
@@ -275,7 +312,7 @@ theorem getElem?_set_eq' {α} (ts : List α) (i j : Nat) (t' t : α) (hi : ts[i]
   · simp
   · rfl
 
-theorem stepThread_inv (a : Algo) (md0 : Option Meta) (fs : List (Peer × Nat)) (st : SState)
+theorem stepThread_inv (a : Algo) (md0 : Option Meta) (fs : List Action) (st : SState)
     (h : SInv a md0 fs st) (i : Nat) : SInv a md0 fs (stepThread fixed a AP st i) := by
   unfold stepThread
   split
@@ -302,7 +339,7 @@ theorem stepThread_inv (a : Algo) (md0 : Option Meta) (fs : List (Peer × Nat)) 
           simp [exec, hen]
         simp only [hexec]
         simp only [Bool.and_eq_true, Option.isNone_iff_eq_none, beq_iff_eq] at hen
-        refine ⟨hkey _ rfl, h.readers, ?_, ?_, h.lin, h.sub, ?_⟩
+        refine ⟨hkey _ rfl, h.readers, ?_, ?_, h.lin, h.chain, h.sub, ?_⟩
         · intro j u hu
           rw [hset] at hu
           split at hu
@@ -329,7 +366,7 @@ theorem stepThread_inv (a : Algo) (md0 : Option Meta) (fs : List (Peer × Nat)) 
       have hop : AP[t.pc]? = some .read := by rw [h1]; rfl
       simp only [hop, exec]
       have hw : st.1.writer = some i := (h.holder i t hti).mp (by omega)
-      refine ⟨hkey _ rfl, h.readers, ?_, ?_, h.lin, h.sub, ?_⟩
+      refine ⟨hkey _ rfl, h.readers, ?_, ?_, h.lin, h.chain, h.sub, ?_⟩
       · intro j u hu
         rw [hset] at hu
         split at hu
@@ -356,7 +393,7 @@ theorem stepThread_inv (a : Algo) (md0 : Option Meta) (fs : List (Peer × Nat)) 
       cases hmd : t.loc with
       | none =>
         simp only
-        refine ⟨hkey _ rfl, h.readers, ?_, ?_, h.lin, h.sub, ?_⟩
+        refine ⟨hkey _ rfl, h.readers, ?_, ?_, h.lin, h.chain, h.sub, ?_⟩
         · intro j u hu
           rw [hset] at hu
           split at hu
@@ -370,13 +407,13 @@ theorem stepThread_inv (a : Algo) (md0 : Option Meta) (fs : List (Peer × Nat)) 
         · intro hs
           -- impossible: the metadata exists initially, so it exists now
           obtain ⟨m0, hm0⟩ := Option.isSome_iff_exists.mp hs
-          obtain ⟨m', hm'⟩ := giveBackAll_some fixed a m0 st.1.order
+          obtain ⟨m', hm'⟩ := applyAll_some fixed a m0 (st.1.order.map (·.1))
           have := h.lin
           rw [hm0, hm', ← hloc, hmd] at this
           cases this
       | some m =>
         simp only
-        refine ⟨hkey _ rfl, h.readers, ?_, ?_, ?_, ?_, ?_⟩
+        refine ⟨hkey _ rfl, h.readers, ?_, ?_, ?_, ?_, ?_, ?_⟩
         · intro j u hu
           rw [hset] at hu
           split at hu
@@ -387,11 +424,14 @@ theorem stepThread_inv (a : Algo) (md0 : Option Meta) (fs : List (Peer × Nat)) 
           split at hu
           · cases hu; simp [h2] at hp2
           · next hij => exact absurd hp2 (hothers j u hij hu)
-        · simp only
-          rw [giveBackAll_append, ← h.lin, ← hloc, hmd]
+        · simp only [List.map_append, List.map_cons, List.map_nil]
+          rw [applyAll_append, ← h.lin, ← hloc, hmd]
           rfl
+        · simp only
+          refine chained_append.mpr ⟨h.chain, ?_⟩
+          rw [← h.lin, ← hloc, hmd]
         · intro k hk
-          simp only [List.mem_append, List.mem_singleton] at hk
+          simp only [List.map_append, List.map_cons, List.map_nil, List.mem_append, List.mem_singleton] at hk
           rcases hk with hk | hk
           · exact h.sub k hk
           · subst hk
@@ -400,6 +440,7 @@ theorem stepThread_inv (a : Algo) (md0 : Option Meta) (fs : List (Peer × Nat)) 
         · intro hs
           have hp := filter_map_set_new (fun t => decide (3 ≤ t.pc)) key st.2 i t
             { t with pc := t.pc + 1 } hti (by simp [h2]) (by simp [h2])
+          simp only [List.map_append, List.map_cons, List.map_nil]
           refine (List.perm_append_comm.trans ?_).trans hp.symm
           simp only [List.singleton_append]
           exact (h.perm hs).cons _
@@ -407,7 +448,7 @@ theorem stepThread_inv (a : Algo) (md0 : Option Meta) (fs : List (Peer × Nat)) 
       have hop : AP[t.pc]? = some .unlock := by rw [h3]; rfl
       simp only [hop, exec]
       have hw : st.1.writer = some i := (h.holder i t hti).mp (by omega)
-      refine ⟨hkey _ rfl, h.readers, ?_, ?_, h.lin, h.sub, ?_⟩
+      refine ⟨hkey _ rfl, h.readers, ?_, ?_, h.lin, h.chain, h.sub, ?_⟩
       · intro j u hu
         rw [hset] at hu
         split at hu
@@ -429,15 +470,66 @@ theorem stepThread_inv (a : Algo) (md0 : Option Meta) (fs : List (Peer × Nat)) 
           rw [hti] at hu; cases hu; simp [key, h3])]
         exact h.perm hs
 
-theorem runSched_inv (a : Algo) (md0 : Option Meta) (fs : List (Peer × Nat)) (σ : List Nat)
+theorem runSched_inv (a : Algo) (md0 : Option Meta) (fs : List Action) (σ : List Nat)
     (st : SState) (h : SInv a md0 fs st) : SInv a md0 fs (runSched fixed a AP st σ) := by
   induction σ generalizing st with
   | nil => exact h
   | cons i σ ih => exact ih _ (stepThread_inv a md0 fs st h i)
 
-theorem reportFailures_inv (a : Algo) (md0 : Option Meta) (fs : List (Peer × Nat)) (σ : List Nat) :
-    SInv a md0 fs (reportFailures fixed a md0 fs σ) :=
+theorem concurrentUpdates_inv (a : Algo) (md0 : Option Meta) (fs : List Action) (σ : List Nat) :
+    SInv a md0 fs (concurrentUpdates fixed a md0 fs σ) :=
   runSched_inv a md0 fs σ _ (sinv_init a md0 fs)
+
+/-- Whatever the schedule of concurrent `SenderForBundle` / `ReportFailure` calls: the metadata
+afterwards is the result of applying some of the updates one after the other (linearizability), and
+if all goroutines returned, all of them. -/
+theorem updates_linearizable (a : Algo) (md0 : Option Meta) (acts : List Action) (σ : List Nat) :
+    ∃ order : List (Action × Meta),
+      (concurrentUpdates fixed a md0 acts σ).1.md = applyAll fixed a md0 (order.map (·.1)) ∧
+      Chained fixed a md0 order ∧
+      (∀ k ∈ order.map (·.1), k ∈ acts) ∧
+      (allDone AP (concurrentUpdates fixed a md0 acts σ).2 = true → md0.isSome →
+        (order.map (·.1)).Perm acts) := by
+  have h := concurrentUpdates_inv a md0 acts σ
+  refine ⟨_, h.lin, h.chain, h.sub, fun hd hs => ?_⟩
+  have hall : (concurrentUpdates fixed a md0 acts σ).2.filter (fun t => decide (3 ≤ t.pc))
+      = (concurrentUpdates fixed a md0 acts σ).2 := by
+    apply List.filter_eq_self.mpr
+    intro t ht
+    have := List.all_eq_true.mp hd t ht
+    simp only [AP, List.length_cons, List.length_nil, beq_iff_eq] at this
+    simp [this]
+  have := h.perm hs
+  rw [hall, h.keys] at this
+  exact this
+
+theorem applyAll_ofReports (P : Params) (a : Algo) (md : Option Meta) (ps : List (Peer × Nat)) :
+    applyAll P a md (ps.map Action.ofReport) = giveBackAll P a md ps := by
+  simp only [applyAll, giveBackAll, List.foldl_map]
+  rfl
+
+theorem report?_ofReport (f : Peer × Nat) : (Action.ofReport f).report? = some f := rfl
+
+theorem ofReport_injective {f g : Peer × Nat} (h : Action.ofReport f = Action.ofReport g) : f = g := by
+  have := congrArg Action.report? h
+  simpa [report?_ofReport] using this
+
+theorem filterMap_report?_map (ps : List (Peer × Nat)) :
+    (ps.map Action.ofReport).filterMap Action.report? = ps := by
+  induction ps with
+  | nil => rfl
+  | cons f fs ih => simp [report?_ofReport, ih]
+
+theorem eq_map_of_all_reports (order : List Action) (fs : List (Peer × Nat))
+    (h : ∀ k ∈ order, k ∈ fs.map Action.ofReport) :
+    order = (order.filterMap Action.report?).map Action.ofReport := by
+  induction order with
+  | nil => rfl
+  | cons k ks ih =>
+    obtain ⟨f, _, rfl⟩ := List.mem_map.mp (h k (List.mem_cons_self ..))
+    simp only [List.filterMap_cons, report?_ofReport, List.map_cons]
+    congr 1
+    exact ih (fun k hk => h k (List.mem_cons_of_mem _ hk))
 
 /-- Whatever the schedule: the metadata after the failure reports is the result of applying some of
 the reports one after the other (linearizability), and if all goroutines returned, all of them. -/
@@ -447,18 +539,69 @@ theorem reportFailures_linearizable (a : Algo) (md0 : Option Meta) (fs : List (P
       (reportFailures fixed a md0 fs σ).1.md = giveBackAll fixed a md0 order ∧
       (∀ k ∈ order, k ∈ fs) ∧
       (allDone AP (reportFailures fixed a md0 fs σ).2 = true → md0.isSome → order.Perm fs) := by
-  have h := reportFailures_inv a md0 fs σ
-  refine ⟨_, h.lin, h.sub, fun hd hs => ?_⟩
-  have hall : (reportFailures fixed a md0 fs σ).2.filter (fun t => decide (3 ≤ t.pc))
-      = (reportFailures fixed a md0 fs σ).2 := by
-    apply List.filter_eq_self.mpr
-    intro t ht
-    have := List.all_eq_true.mp hd t ht
-    simp only [AP, List.length_cons, List.length_nil, beq_iff_eq] at this
-    simp [this]
-  have := h.perm hs
-  rw [hall, h.keys] at this
-  exact this
+  obtain ⟨order', h1, _, h2, h3⟩ := updates_linearizable a md0 (fs.map Action.ofReport) σ
+  generalize order'.map (·.1) = order at h1 h2 h3
+  have heq := eq_map_of_all_reports order fs h2
+  refine ⟨order.filterMap Action.report?, ?_, ?_, ?_⟩
+  · show (concurrentUpdates fixed a md0 (fs.map Action.ofReport) σ).1.md = _
+    rw [h1, ← applyAll_ofReports, ← heq]
+  · intro k hk
+    have : Action.ofReport k ∈ order := by rw [heq]; exact List.mem_map_of_mem hk
+    obtain ⟨g, hg, hgk⟩ := List.mem_map.mp (h2 _ this)
+    rw [← ofReport_injective hgk]; exact hg
+  · intro hd hs
+    have := (h3 hd hs).filterMap Action.report?
+    rw [filterMap_report?_map] at this
+    exact this
+
+/-! ### Overlapping forward() runs: conservation under any interleaving of picks and give-backs -/
+
+/-- The updates spray-and-wait performs: `SenderForBundle` with any sender list, `ReportFailure`
+(one copy) for any peer. -/
+def SprayAction : Action → Prop
+  | .giveBack _ g => g = 1
+  | .pick _ => True
+
+theorem apply_spray_conserves (m : Meta) (act : Action) (h : SprayAction act) :
+    (act.apply fixed .spray m).remaining + (act.apply fixed .spray m).sent.length
+      = m.remaining + m.sent.length ∧
+    (1 ≤ m.remaining → 1 ≤ (act.apply fixed .spray m).remaining) := by
+  cases act with
+  | giveBack p g =>
+    simp only [SprayAction] at h
+    subst h
+    exact ⟨giveBack_conserves .spray m p, fun h1 => Nat.le_trans h1 (giveBack_remaining_ge .spray m p 1)⟩
+  | pick cs =>
+    simp only [Action.apply, pickMeta]
+    split
+    · exact ⟨rfl, id⟩
+    · obtain ⟨p1, p2, p3, _, _⟩ := sprayPick_spec cs m
+      refine ⟨?_, p3⟩
+      rw [p1, List.length_append]; omega
+
+theorem applyAll_spray_conserves (acts : List Action) (h : ∀ k ∈ acts, SprayAction k) (m : Meta) :
+    ∃ m', applyAll fixed .spray (some m) acts = some m' ∧
+      m'.remaining + m'.sent.length = m.remaining + m.sent.length ∧
+      (1 ≤ m.remaining → 1 ≤ m'.remaining) := by
+  induction acts generalizing m with
+  | nil => exact ⟨m, rfl, rfl, id⟩
+  | cons k ks ih =>
+    rw [applyAll_cons]
+    obtain ⟨c1, c2⟩ := apply_spray_conserves m k (h k (List.mem_cons_self ..))
+    obtain ⟨m', e1, e2, e3⟩ := ih (fun x hx => h x (List.mem_cons_of_mem _ hx)) (k.apply fixed .spray m)
+    exact ⟨m', e1, by rw [e2, c1], fun h1 => e3 (c2 h1)⟩
+
+/-- Any number of concurrent `SenderForBundle` and `ReportFailure` calls for one bundle, any
+schedule, finished or not: copies kept + peers recorded in `sent` stays what it was, and the last
+copy is never given away. -/
+theorem spray_concurrent_conserves (acts : List Action) (h : ∀ k ∈ acts, SprayAction k) (m : Meta)
+    (σ : List Nat) :
+    ∃ m', (concurrentUpdates fixed .spray (some m) acts σ).1.md = some m' ∧
+      m'.remaining + m'.sent.length = m.remaining + m.sent.length ∧
+      (1 ≤ m.remaining → 1 ≤ m'.remaining) := by
+  obtain ⟨order, h1, _, h2, _⟩ := updates_linearizable .spray (some m) acts σ
+  obtain ⟨m', e1, e2, e3⟩ := applyAll_spray_conserves (order.map (·.1)) (fun k hk => h k (h2 k hk)) m
+  exact ⟨m', by rw [h1, e1], e2, e3⟩
 
 /-! ### The node: forwarding steps -/
 
